@@ -102,7 +102,11 @@ let () =
               let r2 = chk "FloatCmpOps" (List.nth parts 1) in
               if r2 <> "ok" then r2 else chk "FloatCmpOps(default-constructed, epsilon set)" (List.nth parts 2)
             end) in
-        six ^ " " ^ six ^ " " ^ six, orc
+        let sixo o = String.concat "" (List.map b01
+          [c17_ops_eq p e o a b; c17_ops_ne p e o a b; c17_ops_gt p e o a b; c17_ops_lt p e o a b; c17_ops_ge p e o a b; c17_ops_le p e o a b]) in
+        let o2 = { c17_ops_cstyle = s; c17_ops_rstyle = c17_default_rstyle; c17_ops_eps = eps } in      (* FloatCmpOps<T,cs> ops(eps) *)
+        let o3 = c17_ops_set_eps p e (c17_ops_default p e s C17_Upward) eps in                          (* FloatCmpOps<T,cs,upward> ops2; ops2.epsilon(eps) *)
+        six ^ " " ^ sixo o2 ^ " " ^ sixo o3, orc
       | "vcmp" ->
         let (p, e, w, hw) = fmt_of t.(1) in let s = cstyle_of t.(2) in
         let fb x = c17_of_bits p e w (zin hw (z_of_hex x)) in
@@ -141,6 +145,8 @@ let () =
         let fb x = c17_of_bits p e w (zin hw (z_of_hex x)) in
         let eps = fb t.(5) and v = fb t.(6) in
         let res = if isround then c17_round_fix p e r ty s eps v else c17_trunc_fix p e r ty s eps v in
+        let oo = { c17_ops_cstyle = s; c17_ops_rstyle = r; c17_ops_eps = eps } in                       (* FloatCmpOps<T,cs,rs> ops(eps) *)
+        let reso = if isround then c17_ops_round p e oo ty v else c17_ops_trunc p e oo ty v in
         let res0 = if isround then c17_round p e r ty s eps v else c17_trunc p e r ty s eps v in
         asfound := (if res0 = res then "=" else ires_str res0);
         let orc = (match il with
@@ -165,7 +171,7 @@ let () =
                 else if isround && (z = fl || z = Z.add fl (z_of_int 1))
                         && not (c17_inrange ty (if z = fl then Z.add fl (z_of_int 1) else fl)) then "ok(unrepresentable)"
                 else "BAD result " ^ l ^ " is not the documented " ^ t.(0) ^ " of the argument (exact: " ^ dec_of_z ideal ^ ")")) in
-        ires_str res, orc
+        (if reso = res then ires_str res else ires_str res ^ " ops:" ^ ires_str reso), orc
       | "ipow" | "fact" | "binom" | "isign" ->
         let ty = ity_of t.(1) in
         let a = z_of_dec t.(2) in
@@ -177,7 +183,7 @@ let () =
             let r0 = c17_binomial ty a b and r1 = c17_binomial_fix ty a b in
             asfound := (if r0 = r1 then "=" else ires_str r0);
             r1, Some (c17_spec_binomial_fast a b)
-          | _ -> C17_Val (c17_isign a), Some (c17_spec_sign a)) in
+          | _ -> C17_Val (c17_isign_src a), Some (c17_spec_sign a)) in      (* literals re-read from math.hh; = c17_isign by C17_source_literals *)
         let orc = (match il, exact with
           | None, _ -> "-"
           | _, None -> "ok(no-spec)"
@@ -219,7 +225,15 @@ let () =
         let h st = hex_of_z hw (zout hw (c17_to_bits p e w (c17_default_eps p e st))) in
         let four st = String.concat " " [h st; h st; h st; h st] in
         let mo = four C17_RelWeak ^ " " ^ four C17_RelStrong ^ " " ^ four C17_Absolute ^ " " ^ h c17_default_cstyle in
-        mo, (match il with None -> "-" | Some l -> if l = mo then "ok" else "BAD DefaultEpsilon is not 8 * machine epsilon (relative styles) / max(machine epsilon, 1e-6) (absolute) for every value type")
+        mo, (match il with None -> "-" | Some l ->
+          (* judged against the DOCUMENTED defaults (c17_spec_default_eps_ok), not against the literals re-read from the source *)
+          let toks = Array.of_list (String.split_on_char ' ' l) in
+          if Array.length toks <> 13 then "BAD unparsable impl line" else
+          let style_of i = if i < 4 then C17_RelWeak else if i < 8 then C17_RelStrong else if i < 12 then C17_Absolute else C17_RelWeak in
+          let okv i = (try let v = c17_of_bits p e w (zin hw (z_of_hex toks.(i))) in
+                           is_fin p e v && c17_spec_default_eps_ok p (style_of i) (c17_to_dy p e v) with _ -> false) in
+          if List.for_all okv [0;1;2;3;4;5;6;7;8;9;10;11;12] then "ok"
+          else "BAD DefaultEpsilon is not the documented 8 * machine epsilon (relative styles, default style relativeWeak) / 1e-6 (absolute) for every value type")
       | "cmpd" ->
         let (p, e, w, hw) = fmt_of t.(1) in
         let fb x = c17_of_bits p e w (zin hw (z_of_hex x)) in
@@ -239,8 +253,12 @@ let () =
             let chk (s, ep) (o : string) =
               let g i = o.[i] = '1' in
               if not (c17_cmp_laws (c17_flt p e a b) (c17_fgt p e a b) (g 0) (g 1) (g 2) (g 3) (g 4) (g 5)) then false
-              else (match c17_eq_verdict p e s (c17_to_dy p e ep) (c17_to_dy p e a) (c17_to_dy p e b) with Some x -> x = g 0 | None -> true) in
-            if List.for_all2 chk groups parts then "ok"
+              else (match c17_eq_verdict p e s ep (c17_to_dy p e a) (c17_to_dy p e b) with Some x -> x = g 0 | None -> true) in
+            (* the oracle uses the DOCUMENTED defaults: 8 * 2^(1-prec) for the relative styles, default style relativeWeak *)
+            let dw = c17_dy_pow2 (Z.sub (z_of_int 4) p) in
+            let ogroups = [ (C17_RelWeak, dw); (C17_RelStrong, dw); (C17_Absolute, c17_to_dy p e (c17_default_eps p e C17_Absolute));
+                            (C17_RelWeak, dw); (C17_RelWeak, c17_to_dy p e eps); (C17_RelWeak, dw) ] in
+            if List.for_all2 chk ogroups parts then "ok"
             else "BAD a comparison with defaulted epsilon / compare style violates the algebra or the documented definition with the documented default") in
         mo, orc
       | "rto" ->
@@ -277,7 +295,8 @@ let () =
         r ^ " " ^ r, (match il with None -> "-" | Some l -> if l = spec ^ " " ^ spec then "ok" else "BAD factorial(integral_constant) / Factorial<n>::factorial is not n!")
       | "icbinom" ->
         let ty = ity_of "i32" in let n = z_of_dec t.(1) and k = z_of_dec t.(2) in
-        let r = ires_str (c17_binomial_fix ty n k) in
+        let r = if n = k then dec_of_z (c17_binomial_nn_src n)            (* the (n,n) overload: literals re-read from math.hh *)
+                else ires_str (c17_binomial_fix ty n k) in
         let spec = dec_of_z (c17_spec_binomial_fast n k) in
         r, (match il with None -> "-" | Some l -> if l = spec then "ok" else "BAD binomial(integral_constant, integral_constant) is not C(n,k)")
       | "icls" ->
@@ -305,6 +324,8 @@ let () =
         let r = (match kind with
           | "s" -> let v = List.hd vs in [c17_isnan p e v; c17_isinf p e v; c17_isfinite p e v]
           | "c" -> let re = List.nth vs 0 and im = List.nth vs 1 in [c17_cisnan p e re im; c17_cisinf p e re im; c17_cisfinite p e re im]
+          | "vc" -> let rec pairs = function x :: y :: tl -> (x, y) :: pairs tl | _ -> [] in
+                    let pv = pairs vs in [c17_vcisnan p e pv; c17_vcisinf p e pv; c17_vcisfinite p e pv]
           | _ -> [c17_visnan p e vs; c17_visinf p e vs; c17_visfinite p e vs]) in
         let spec = String.concat "" (List.map b01 [c17_spec_any_nan p e vs; c17_spec_any_inf p e vs; c17_spec_all_finite p e vs]) in
         String.concat "" (List.map b01 r),
@@ -313,8 +334,9 @@ let () =
         let (p, e, w, hw) = fmt_of t.(1) in
         let a = c17_of_bits p e w (zin hw (z_of_hex t.(2))) and b = c17_of_bits p e w (zin hw (z_of_hex t.(3))) in
         let r = b01 (c17_isunordered p e a b) in
+        let r1 = b01 (c17_visunordered1 p e a b) in
         let spec = b01 (is_nan p e a || is_nan p e b) in
-        r ^ " " ^ r, (match il with None -> "-" | Some l -> if l = spec ^ " " ^ spec then "ok" else "BAD isUnordered must hold exactly when an argument is NaN")
+        r ^ " " ^ r1, (match il with None -> "-" | Some l -> if l = spec ^ " " ^ spec then "ok" else "BAD isUnordered must hold exactly when an argument is NaN")
       | _ -> "UNKNOWN-OP", "-"
       with Failure m -> "MODEL-ERROR " ^ m, "-" | Invalid_argument m -> "MODEL-ERROR " ^ m, "-" | Not_found -> "MODEL-ERROR notfound", "-"
     in
